@@ -2224,7 +2224,10 @@ class Parameters:
         if running_task is None:
             self_.self._param__private.async_refs[pname] = current_task
         elif current_task is not running_task:
+            # the newer evaluation supersedes the one still pending and takes
+            # its place, so that it can in turn be cancelled
             self_.self._param__private.async_refs[pname].cancel()
+            self_.self._param__private.async_refs[pname] = current_task
         try:
             if isinstance(awaitable, types.AsyncGeneratorType):
                 async for new_obj in awaitable:
